@@ -14,6 +14,7 @@ package lexer
 
 import (
 	"strings"
+	"unicode/utf8"
 
 	"github.com/paulsonkoly/calc/types/token"
 )
@@ -96,6 +97,11 @@ func (l *Lexer) nextRune() (rune, int, error) {
 	}
 
 	c, s, err := l.rdr.ReadRune()
+	if c == EOF {
+		// a NUL in the text is not the end of input, the states reject it like
+		// any other character outside the alphabet
+		c = utf8.RuneError
+	}
 	return c, s, err
 }
 
